@@ -60,6 +60,8 @@ def own_func(ld):
         return ld.w.__func__
     if pr.route == 'param':
         return ld.w.func
+    if pr.route == 'wrapsdeco':
+        return ld.w.__wrapped__
     return ld.w
 
 
